@@ -1,14 +1,18 @@
 """C12 — long-running programs do not accumulate closures or heap objects; no use after release.
 
 P: theorems of coq/theories/Props/C12.v over Heap/Model.v (slot map with generational keys, reference-counted
-   stores, the discipline checker `balanced`, closure layer of vm.rs).
+   stores, the discipline checker `balanced`, closure layer of vm.rs); both clauses of the property are refuted on the
+   current tree (leaks F21..F24, use after release F25) with real VM traces as Coq witnesses.
 C: (1) heap.rs differential: random operation sequences (alloc / retain / release / load / store, stale keys
        included) on the real `HeapStorage` (harness bin heap_run, "ops") vs the extracted `hrun` (ocaml/heap_drv.ml).
    (2) hook H2 (cfg mimium_verif; present when vm.rs of vplib.REPO has `pub fn heap_take`): the real VM's event log of
        closure / heap-object alloc / retain / release / free / use per program is replayed by the EXTRACTED monitor
        (`mstep`): a rejection is a use-after-release, a double release, a free of a referenced object or a
-       model/implementation disagreement in the REAL VM; the model's live counts are compared with the real
-       `closures.len()` / `heap.len()` after global initialisation and after every logged sample.
+       model/implementation disagreement in the REAL VM; at every operation mark of the log (drop_closure,
+       release_heap_closure, close_upvalues_by_idx, CloneHeap, CloseHeapClosure, allocate_heap_closure) the extracted
+       transcription of that vm.rs operation must emit exactly the events the real VM logged; the model's live counts
+       are compared with the real `closures.len()` / `heap.len()` after global initialisation and after every logged
+       sample, and no live closure wrapper may refer to a freed closure.
    (3) directly on the implementation, without the model: `closures.len()` and `heap.len()` after samples N/2, N and
        2N are equal (N = 64 quick / 2048 thorough) on shipped fixtures / examples and on generated programs that
        create closures, higher-order calls, escaping closures, tuples/records of closures, boxed recursive variants
@@ -185,7 +189,8 @@ def s_box_list(rng, i):
             f"fn len{i}(l: L{i}) -> float {{ match l {{ Nil{i} => 0.0, Cons{i}(_, t) => 1.0 + len{i}(t) }} }}\n")
     mode = rng.below(5)
     if mode == 0:      # built and dropped without being passed on
-        return Snip(defs=defs, body=[f"let l{i} = {list_lit(i, xs)}"], val=fnum(rng), tag="box-local-unused")
+        return Snip(defs=defs, body=[f"let l{i} = {list_lit(i, xs)}"], val=fnum(rng),
+                    tag="box-local-single" if n == 1 else "box-local-unused")
     if mode == 1:      # global list folded in dsp
         return Snip(defs=defs, glob=f"let gl{i} = {list_lit(i, xs)}\n", val=f"sum{i}(gl{i})", tag="box-global")
     if mode == 2:
@@ -269,7 +274,7 @@ SNIPPETS = [s_local_closure, s_local_closure, s_local_counter, s_escape, s_escap
             s_box_tree, s_box_option, s_sched_self, s_sched_lambda_dsp, s_sched_metro, s_sched_counter, s_plain,
             s_shared_upvalue]
 # snippets that only use objects made during global initialisation: the property must hold with no exception
-STEADY_TAGS = {"global-closure", "box-global", "box-none", "plain", "sched-metro", "sched-letrec", "box-local-unused"}
+STEADY_TAGS = {"global-closure", "box-global", "box-none", "plain", "sched-metro", "sched-letrec", "box-local-single"}
 
 
 def gen_program(rng, only_steady=False):
@@ -535,12 +540,16 @@ def run(ck):
         ck.violation("a proof obligation of Props/C12.v no longer checks: " + "; ".join(ck.broken)[:800],
                      {"kind": "proof", "broken": ck.broken}, no_input=True)
     ck.finish(
-        "Coq: slot-map stores with generational keys; heap.rs operation sequences keep 'present iff count > 0' and never "
-        "reissue a key (C12_heap_inv); the extracted monitor `balanced` is sound (C12_no_uaf_balanced) and net-zero "
-        "periods keep the live count constant (C12_steady_state_partial); the steady-state clause itself is refuted on "
-        "the current tree (C12_steady_state_refuted + known findings F21..F24). Correspondence: heap.rs differential; "
-        "H2 event logs of the real VM replayed by the extracted monitor with live counts compared to "
-        "closures.len()/heap.len(); direct N / 2N comparison on fixtures, examples and generated programs.",
+        "Coq (all closed): slot-map stores with generational keys; any heap.rs operation sequence keeps 'present iff count "
+        "> 0, refcount = count' and never reissues a key (C12_heap_inv); the extracted monitor `balanced` is sound: no "
+        "dereference or lookup of a freed key, releases <= references, final live set = keys with positive count, live + "
+        "frees = allocs (C12_no_uaf_balanced); net-zero periods keep the live count constant (C12_steady_state_partial); the "
+        "vm.rs closure-layer operations agree with the monitor (C12_closure_ops_replay). Both clauses of the property are "
+        "REFUTED on the current tree with real VM traces as witnesses (C12_steady_state_refuted: leaks, known findings "
+        "F21..F24; C12_no_uaf_refuted: use after release, F25). Correspondence: heap.rs differential; H2 event logs of the "
+        "real VM replayed by the extracted monitor, every closure-layer operation of the log compared event by event "
+        "with the extracted transcription, live counts compared with closures.len()/heap.len(), no live wrapper of a "
+        "freed closure; direct N/2, N, 2N comparison on fixtures, examples and generated programs.",
         ["Coq kernel 8.16.1", "extraction (ExtrOcamlBasic/ExtrOcamlString) + ocaml/heap_drv.ml",
          "harness/lang bins heap_run / heap_run_h2 + hook H2 placement in vm.rs / heap.rs",
          "slot versions unbounded in the model (u32 wrap after 2^31 reuses of one slot not modelled)",
@@ -558,8 +567,7 @@ def run(ck):
 def gen_ops(rng):
     """A sequence of [code, idx, ver, word]; keys are mostly ones handed out earlier (live or stale), sometimes wild."""
     n = rng.range(1, 60)
-    issued = []   # predicted keys are not needed: we take them from a shadow slot map
-    slots = [None]          # shadow of slotmap for key prediction: version per slot, free list
+    issued = []             # keys handed out so far, predicted with a shadow of the slot map (version per slot, free list)
     vers = [0]
     free = []
     ops = []
@@ -724,7 +732,6 @@ def check_programs(ck, exe, drv, evdir, progs, N, EVN, CLS_N, have_h2, known):
                 opn = {0: "alloc", 1: "retain", 2: "release", 3: "free", 4: "use", 5: "probe", 6: "close"}.get(kind & 15, "?")
                 store = "closure" if kind & 0x10 else "heap object"
                 rc = "INVALID" if f[5] == str(INVALID) else f[5]
-        
                 what = (f"verified monitor rejects event #{f[1]} of the real VM: {opn} of {store} ({f[3]},{f[4]}) "
                         f"refcount-after {rc}: "
                         + ("use after release / double release" if rc == "INVALID" or opn in ("retain", "release", "use", "close")
@@ -778,6 +785,13 @@ def check_programs(ck, exe, drv, evdir, progs, N, EVN, CLS_N, have_h2, known):
         if r["st"] != "ok":
             continue
         a, b, c = lens_at(r, N // 2 - 1), lens_at(r, N - 1), lens_at(r, 2 * N - 1)
+        if p.get("tags") and all(tg in STEADY_TAGS for tg in p["tags"]):
+            # generated from snippets that only use objects made during global initialisation
+            ck.add("steady_only_programs")
+            if not (a == b == c):
+                ck.add("steady_only_programs_growing")
+        for tg in set(p.get("tags", [])):
+            ck.add("tag_" + tg + ("_steady" if a == b == c else "_growing"))
         if a == b == c:
             ck.add("programs_steady")
             if len(ck.coverage["samples"]) < 6 and r.get("nev", 0) > 0:
